@@ -8,7 +8,8 @@ JudgeIntersect(B) ==
   LET tf == SumOver(B.pairs, TFSteps)
       sk == SumOver(B.pairs, SkipSteps)
       lf == SumSeq([j \in 1..Len(B.pairs) |-> Len(B.pairs[j][1])])
-      oneshot(r) == Len(r.batching) < Len(B.pairs)
+      \* any batching other than fiber-by-fiber: several fibers per batch, or an empty leading batch (traces handed over before the first intersection)
+      oneshot(r) == Len(r.batching) < Len(B.pairs) \/ \E k \in 1..Len(r.batching) : r.batching[k] = 0
   IN Fails([k \in 1..Len(B.res) |->
        <<IF oneshot(B.res[k]) THEN "P:C19:batch-independent-two-finger" ELSE "P:C19:two-finger", B.res[k].tf_exc = "ok" /\ B.res[k].tf = tf>>]
      \o [k \in 1..Len(B.res) |->
